@@ -448,6 +448,54 @@ def renderSorted (j : J) : Bytes :=
     | .obj kvs => .obj (sortMembers kvs)
     | j => j)
 
+/-! glue ops -/
+
+/-- the descriptor sets of harness/c09/glue.go, abstractly: alpha v1 knows Item (type 1) with 2 fields, alpha v2 with 4,
+    beta knows Thing (type 2) with 2 fields; the Any of a step carries the target's own item with every field set -/
+def histResolver : String → Option Resolver
+  | "a1" => some [(1, 2)]
+  | "a2" => some [(1, 4)]
+  | "b" => some [(2, 2)]
+  | _ => none
+
+def histValue : String → Option AnyVal
+  | "a1" => some ⟨1, [0, 1]⟩
+  | "a2" => some ⟨1, [0, 1, 2, 3]⟩
+  | "b" => some ⟨2, [0, 1]⟩
+  | _ => none
+
+def parseHistStep (s : String) : Option CodecUse :=
+  match s.splitOn "." with
+  | [t, path, _shape, _item] =>
+    match histResolver t, histValue t with
+    | some r, some v =>
+      if ["u", "s", "x", "e", "d", "r"].contains path then
+        some { stream := ["s", "x", "e", "d"].contains path, res := r, val := v }
+      else none
+    | _, _ => none
+  | _ => none
+
+def histClass (u : CodecUse) : Res AnyVal → String
+  | .ok v => if v == u.val then "full" else "lossy"
+  | _ => "err"
+
+def parseBridgeCfg (s : String) : Option (BridgeCfg × Bool) :=
+  let opt : Char → Option (Option Bool)
+    | '-' => some none
+    | 's' => some (some false)
+    | 'd' => some (some true)
+    | _ => none
+  match s.toList with
+  | [m, d, c] =>
+    match opt m, opt d with
+    | some mm, some dd => if c == 'c' then some (⟨mm, dd⟩, true) else if c == 'n' then some (⟨mm, dd⟩, false) else none
+    | _, _ => none
+  | _ => none
+
+def obsOfRes (k : Kind) : Res Field → String
+  | .ok f => "acc:" ++ showField (f.read k)
+  | _ => "rej"
+
 def handle : Handler
   | ["dec", os, cs, ks, keys, _text], [u, ts, fps, impls, oracles] =>
     match parseKind ks, parseCard cs keys, parseFp fps, parseObs impls, parseObs oracles with
@@ -594,6 +642,67 @@ def handle : Handler
                 else "DIFF model-stream-roundtrip"
       | _, _, _, _, _ => "BAD senc fields"
     else "BAD c09 line"
+  | ["hist", _os, stepss], [classes, ress, refs] =>
+    match (stepss.splitOn ",").mapM parseHistStep with
+    | none => "BAD hist steps"
+    | some uses =>
+      -- model: `runUses` — every use resolved with the resolver it was handed (`C09_codec_history_free`)
+      let expected := (uses.zip (runUses uses)).map fun (u, r) => histClass u r
+      let observed := classes.splitOn ";"
+      let rs := ress.splitOn ";"
+      let fs := refs.splitOn ";"
+      if observed.length != uses.length || rs.length != uses.length || fs.length != uses.length then "BAD hist arity"
+      else
+        let rec goHist (i : Nat) (es os rs fs : List String) (streamsBefore : Nat) (us : List CodecUse) : String :=
+          match es, os, rs, fs, us with
+          | e :: es', o :: os', r :: rs', f :: fs', u :: us' =>
+            if o != e then
+              if streamsBefore > 0 then s!"VIOL result-depends-on-earlier-stream step={i} observed={o} expected={e} result={r} value={f}"
+              else s!"VIOL codec-result step={i} observed={o} expected={e} result={r} value={f}"
+            else if (o == "full") != (r == f) then s!"BAD hist class step={i}"
+            else goHist (i + 1) es' os' rs' fs' (streamsBefore + (if u.stream then 1 else 0)) us'
+          | _, _, _, _, _ => s!"OK nt b=hist.len{uses.length}"
+        goHist 0 expected observed rs fs 0 uses
+  | ["entry", cfgs, cs, ks, keys, text], [u, ts, fps, oHttp, oSs, oSse, oWs, refS, refL] =>
+    match parseBridgeCfg cfgs, parseFp fps, parseHex text with
+    | some (cfg, ct), some fp, some raw =>
+      let tree := if ts == "!" then some none else (parseTree ts).map some
+      match tree with
+      | none => "BAD tree"
+      | some tree =>
+        match treeCheck raw [tree] true with
+        | some bad => bad
+        | none =>
+          -- the reference is the single-shot codec under the DiscardUnknown the configuration selects (`pickDiscard`)
+          let discard := pickDiscard cfg ct
+          let ref := if discard then refL else refS
+          -- a WebSocket text frame cannot carry invalid UTF-8 (the frame is refused by the transport, whatever the
+          -- marshaler): such bodies are judged on the HTTP entry points only
+          let entries := [(Entry.http, "http", oHttp), (Entry.httpStream, "ss", oSs), (Entry.sse, "sse", oSse)] ++
+            (if validUtf8 raw then [(Entry.ws, "ws", oWs)] else [])
+          -- scalar field bodies: the Lean model of the entry point (`entryDecode (rootWiring cfg)`)
+          let modelBad : Option String :=
+            match parseKind ks, parseCard cs keys, tree with
+            | some k, some (c, _), some j =>
+              let ops := tableOps fp []
+              entries.findSome? fun (e, name, _) =>
+                let m := entryDecode ops (rootWiring cfg) e ct c k j
+                let unique := match m with
+                  | .ok (.map kvs) => keysUnique kvs
+                  | _ => true
+                if unique && obsOfRes k m != ref then some s!"DIFF entry-model entry={name} model={obsOfRes k m} reference={ref}" else none
+            | _, _, _ => none
+          match entries.find? (fun (_, _, o) => o != ref) with
+          | some (_, name, o) =>
+            s!"VIOL entry-point-ignores-marshaler-config entry={name} observed={o} expected={ref} discard={discard} strict={refS} lenient={refL}"
+          | none =>
+            match modelBad with
+            | some d => d
+            | none =>
+              let sens := if refS != refL then "sensitive" else "plain"
+              let _ := u
+              s!"OK nt b=entry.{cfgs}.{sens}"
+    | _, _, _ => "BAD entry fields"
   | _, _ => "BAD c09 line"
 
 end GB.C09
